@@ -12,6 +12,7 @@ import (
 	sdkmath "cosmossdk.io/math"
 	abci "github.com/cometbft/cometbft/abci/types"
 	cmtproto "github.com/cometbft/cometbft/proto/tendermint/types"
+	cmttypes "github.com/cometbft/cometbft/types"
 	sdk "github.com/cosmos/cosmos-sdk/types"
 	"github.com/ethereum/go-ethereum/common"
 	ethtypes "github.com/ethereum/go-ethereum/core/types"
@@ -219,7 +220,7 @@ func (w *World) Exec(o *tr.Op) string {
 			ss = append(ss, fmt.Sprintf("%x|%d", u.PubKey.GetSecp256K1(), uint64(u.Power)))
 		}
 		sort.Strings(ss)
-		return "ok ups=" + tr.StrList(ss)
+		return "ok ups=" + tr.StrList(ss) + " ;; comet=" + w.applyComet(ups)
 
 	// ---------------------------------------------------------------------------------- dequeue
 	case "btc.dequeue":
@@ -258,6 +259,47 @@ func (w *World) Exec(o *tr.Op) string {
 		return "ok txs=" + SysTxList(txs)
 	}
 	return "unknown-op " + o.Kind
+}
+
+// applyComet feeds the update list to a real CometBFT validator set (what the consensus engine would
+// do with ResponseFinalizeBlock.ValidatorUpdates) and reports whether it is acceptable.
+func (w *World) applyComet(ups []abci.ValidatorUpdate) (res string) {
+	defer func() {
+		if e := recover(); e != nil {
+			res = "panic"
+		}
+	}()
+	if w.Comet == nil {
+		w.Comet = cmttypes.NewValidatorSet(nil)
+	}
+	if len(ups) == 0 {
+		return "ok"
+	}
+	vals, err := cmttypes.PB2TM.ValidatorUpdates(ups)
+	if err != nil {
+		return "err:convert"
+	}
+	cp := w.Comet.Copy()
+	if err := cp.UpdateWithChangeSet(vals); err != nil {
+		m := err.Error()
+		switch {
+		case strings.Contains(m, "duplicate entry"):
+			return "err:duplicate"
+		case strings.Contains(m, "can't be negative"):
+			return "err:negative"
+		case strings.Contains(m, "can't be higher"):
+			return "err:too-high"
+		case strings.Contains(m, "empty set"):
+			return "err:empty-set"
+		case strings.Contains(m, "failed to find validator"):
+			return "err:remove-non-member"
+		case strings.Contains(m, "exceeds max"):
+			return "err:total-overflow"
+		}
+		return "err:other"
+	}
+	w.Comet = cp
+	return "ok"
 }
 
 type cometInfo struct{ mis []abci.Misbehavior }
